@@ -23,17 +23,16 @@ inductive CmdErr where
   | bodyExclusive | needTitle | emptyBody | conflictingFlags | noSuchEpic
   deriving DecidableEq, Repr, Inhabited
 
-/-- `validateTransition` over the table regenerated from model.go -/
+/-- `validateTransition` over the table regenerated from model.go.  A Go state string is always
+    represented by `St.ofString` of it, so table entries are compared as `St` values. -/
 def validTransition (frm to : St) : Bool :=
   frm == to ||
-  match Gen.validTransitions.lookup frm.toString with
-  | none => false
-  | some l => l.contains to.toString
+  Gen.validTransitions.any fun (a, l) => St.ofString a == frm && l.any fun b => St.ofString b == to
 
 /-- `validateClaimInvariant` over the regenerated rule -/
 def claimInvariantOk (st : St) (claimedBy : String) : Bool :=
-  if Gen.claimRequired.contains st.toString then claimedBy != ""
-  else if Gen.claimForbidden.contains st.toString then claimedBy == ""
+  if Gen.claimRequired.any (St.ofString · == st) then claimedBy != ""
+  else if Gen.claimForbidden.any (St.ofString · == st) then claimedBy == ""
   else true
 
 /-- `map[string]string` restricted to the keys any caller can produce -/
@@ -105,80 +104,28 @@ def buildSetEvents (t : Task) (u : Updates) (agent : String) (now : Time) : Exce
     else pure []
   pure (evTitle ++ evBody ++ evEpic ++ evClaim ++ evState ++ evTrail)
 
-/-! ## lock sections -/
+/-! ## lock sections
+
+Since the fix commits "make sequence all-or-nothing", "apply set's result attachment and field
+updates in one lock section" and "create a task and apply its initial state/claim in one lock
+section", every mutating command is exactly one `withLock` closure. -/
 
 /-- what a section does to the log file -/
 inductive Write where
-  | append (evs : List Event)      -- `appendEvents`: one write(2) per event
+  | append (evs : List Event)      -- `appendEvents`
   | replace (evs : List Event)     -- `replaceEventsAtomically`: tmp + fsync + rename
   deriving DecidableEq, Repr, Inhabited
 
-/-- the set section of `applySetUpdates` -/
-def secSet (g : Graph) (id : Id) (u : Updates) (agent : String) (now : Time) : Except CmdErr Write := do
-  if g.tombed id then throw (.pruned id)
-  match g.find? id with
-  | none => throw (.unknownTask id)
-  | some t =>
-    if t.isEpic && u.state.isSome then throw .epicNoState
-    if t.isEpic && u.claim.isSome then throw .epicNoClaim
-    -- an epic assignment must name a live epic ("" unassigns)
-    match u.epic with
-    | none => pure ()
-    | some e =>
-      if e != "" && !t.isEpic then
-        if g.tombed e then throw (.pruned e)
-        match g.find? e with
-        | none => throw .unknownEpic
-        | some ep => if !ep.isEpic then throw .notEpic
-    let evs ← buildSetEvents t u agent now
-    pure (.append evs)
+/-- the `updates` map plus the two result keys (after `splitResultUpdates`) -/
+structure SetReq where
+  u : Updates := {}
+  resultPath    : Option String := none
+  resultSummary : Option String := none
+  deriving DecidableEq, Repr, Inhabited
 
-/-- ids `newShortID` refuses: live ones and pruned ones -/
-def Graph.taken (g : Graph) (i : Id) : Bool := g.tombed i || g.has i
-
-/-- first id of the RNG stream (at most 64 draws) that is not taken — `newShortID` -/
-def pickId (live : Id → Bool) (ids : List Id) : Option (Id × List Id) :=
-  go 64 ids
-where go : Nat → List Id → Option (Id × List Id)
-  | 0, _ => none
-  | _, [] => none
-  | n+1, i :: rest => if live i then go n rest else some (i, rest)
-
-/-- `createTaskWithDir` -/
-def secCreate (g : Graph) (isEpic : Bool) (epicId title body : String) (ids : List Id) (uuid : String)
-    (now : Time) : Except CmdErr (Write × Id) := do
-  if !isEpic && epicId != "" then
-    match g.find? epicId with
-    | none => throw .unknownEpic
-    | some e => if !e.isEpic then throw .notEpic
-  match pickId g.taken ids with
-  | none => throw .idExhausted
-  | some (id, _) =>
-    pure (.append [Event.newItem isEpic id uuid (if isEpic then "" else epicId) .todo title body (some now)], id)
-
-/-- `writeLinkEvent` -/
-def secLink (g : Graph) (unlink : Bool) (f t : Id) : Except CmdErr Write := do
-  if g.tombed f then throw (.pruned f)
-  if g.tombed t then throw (.pruned t)
-  match g.find? f, g.find? t with
-  | none, _ => throw (.unknownId f)
-  | some _, none => throw (.unknownId t)
-  | some fi, some ti =>
-    if f == t then throw .depSelf
-    if fi.isEpic != ti.isEpic then throw .depKinds
-    if !unlink && hasCycle g f t then throw .depCycle
-    pure (.append [if unlink then Event.unlink f t true else Event.link f t true])
-
-/-- the closure of `RunClaimOldestReady` -/
-def secClaimOldest (g : Graph) (epicId agent : String) (now : Time) : Except CmdErr (Write × Task) :=
-  match readyTasks g epicId with
-  | [] => .error .noReady
-  | t :: _ => .ok (.append [Event.claim t.id agent (some now), Event.state t.id .doing (some now)], t)
-
-/-- `runPrune` -/
-def secPrune (g : Graph) (apply : Bool) (agent : String) (now : Time) : Write × List Id :=
-  let ids := pruneTargets g
-  (.append (if apply then ids.map fun i => Event.tombstone i agent (some now) else []), ids)
+def SetReq.isEmpty (r : SetReq) : Bool := r.u.isEmpty && r.resultPath.isNone && r.resultSummary.isNone
+/-- `splitResultUpdates`: the two result keys must come together -/
+def SetReq.paired (r : SetReq) : Bool := r.resultPath.isSome == r.resultSummary.isSome
 
 /-- `validateResultSummary` -/
 def resultSummaryOk (s : String) : Bool :=
@@ -192,18 +139,108 @@ inductive PathOutcome where
   | rejected (why : String)
   deriving DecidableEq, Repr, Inhabited
 
-/-- `writeResultEvent` -/
-def secResult (g : Graph) (id : Id) (summary : String) (po : PathOutcome) (now : Time) : Except CmdErr Write := do
+/-- `buildResultEvent` -/
+def resultEvent (t : Task) (summary : String) (po : PathOutcome) (now : Time) : Except CmdErr Event := do
+  if t.isEpic then throw .resultEpic
+  if !resultSummaryOk summary then throw .resultSummary
+  match po with
+  | .rejected why => throw (.resultPath why)
+  | .ok clean sha mtime git => pure (Event.result t.id (Text.trimSpace summary) clean sha mtime git (some now))
+
+/-- `buildUpdateEvents`: result attachment and/or field updates for one item, validated against `g` -/
+def updateEvents (g : Graph) (t : Task) (r : SetReq) (agent : String) (po : PathOutcome) (now : Time) :
+    Except CmdErr (List Event) := do
+  let evRes ← match r.resultPath, r.resultSummary with
+    | some _, some s => (resultEvent t s po now).map fun e => [e]
+    | _, _ => pure []
+  if r.u.isEmpty then return evRes
+  if t.isEpic && r.u.state.isSome then throw .epicNoState
+  if t.isEpic && r.u.claim.isSome then throw .epicNoClaim
+  -- an epic assignment must name a live epic ("" unassigns)
+  match r.u.epic with
+  | none => pure ()
+  | some e =>
+    if e != "" && !t.isEpic then
+      if g.tombed e then throw (.pruned e)
+      match g.find? e with
+      | none => throw .unknownEpic
+      | some ep => if !ep.isEpic then throw .notEpic
+  let evs ← buildSetEvents t r.u agent now
+  pure (evRes ++ evs)
+
+/-- the closure of `applySetUpdates` -/
+def secUpdate (g : Graph) (id : Id) (r : SetReq) (agent : String) (po : PathOutcome) (now : Time) : Except CmdErr Write := do
   if g.tombed id then throw (.pruned id)
   match g.find? id with
   | none => throw (.unknownTask id)
-  | some t =>
-    if t.isEpic then throw .resultEpic
-    if !resultSummaryOk summary then throw .resultSummary
-    match po with
-    | .rejected why => throw (.resultPath why)
-    | .ok clean sha mtime git =>
-      pure (.append [Event.result id (Text.trimSpace summary) clean sha mtime git (some now)])
+  | some t => (updateEvents g t r agent po now).map .append
+
+/-- ids `newShortID` refuses: live ones and pruned ones -/
+def Graph.taken (g : Graph) (i : Id) : Bool := g.tombed i || g.has i
+
+/-- first id of the RNG stream (at most 64 draws) that is not taken — `newShortID` -/
+def pickId (live : Id → Bool) (ids : List Id) : Option (Id × List Id) :=
+  go 64 ids
+where go : Nat → List Id → Option (Id × List Id)
+  | 0, _ => none
+  | _, [] => none
+  | n+1, i :: rest => if live i then go n rest else some (i, rest)
+
+/-- the item exactly as replay will create it -/
+def freshTask (isEpic : Bool) (id uuid epicId title body : String) (now : Time) : Task :=
+  { id, uuid, epicId, isEpic, st := .todo, title, body, claimedBy := "", createdAt := now, updatedAt := now,
+    results := [], cTitle := title, cBody := body, cSt := .todo, cEpic := epicId,
+    lastState := 0, lastClaim := 0, lastTitle := 0, lastBody := 0, lastEpic := 0 }
+
+/-- `createTaskWithDir`: create plus the follow-up updates given at creation, one section -/
+def secCreate (g : Graph) (isEpic : Bool) (epicId title body : String) (follow : SetReq) (ids : List Id) (uuid : String)
+    (agent : String) (po : PathOutcome) (now : Time) : Except CmdErr (Write × Id) := do
+  if !isEpic && epicId != "" then
+    match g.find? epicId with
+    | none => throw .unknownEpic
+    | some e => if !e.isEpic then throw .notEpic
+  match pickId g.taken ids with
+  | none => throw .idExhausted
+  | some (id, _) =>
+    let eid := if isEpic then "" else epicId
+    let ev := Event.newItem isEpic id uuid eid .todo title body (some now)
+    let more ← if follow.isEmpty then pure [] else updateEvents g (freshTask isEpic id uuid eid title body now) follow agent po now
+    pure (.append (ev :: more), id)
+
+/-- one edge of `writeLinkEvents`, against the deps accumulated so far -/
+def linkCheck (g : Graph) (unlink : Bool) (f t : Id) : Except CmdErr Unit := do
+  if g.tombed f then throw (.pruned f)
+  if g.tombed t then throw (.pruned t)
+  match g.find? f, g.find? t with
+  | none, _ => throw (.unknownId f)
+  | some _, none => throw (.unknownId t)
+  | some fi, some ti =>
+    if f == t then throw .depSelf
+    if fi.isEpic != ti.isEpic then throw .depKinds
+    if !unlink && hasCycle g f t then throw .depCycle
+
+def linkEvents (g : Graph) (unlink : Bool) : List (Id × Id) → Except CmdErr (List Event)
+  | [] => .ok []
+  | (f, t) :: rest => do
+    linkCheck g unlink f t
+    let g' := if unlink then g else { g with deps := g.deps ++ [(f, t)] }
+    let evs ← linkEvents g' unlink rest
+    pure ((if unlink then Event.unlink f t true else Event.link f t true) :: evs)
+
+/-- `writeLinkEvents`: all edges of one `sequence` command -/
+def secLinks (g : Graph) (unlink : Bool) (edges : List (Id × Id)) : Except CmdErr Write :=
+  (linkEvents g unlink edges).map .append
+
+/-- the closure of `RunClaimOldestReady` -/
+def secClaimOldest (g : Graph) (epicId agent : String) (now : Time) : Except CmdErr (Write × Task) :=
+  match readyTasks g epicId with
+  | [] => .error .noReady
+  | t :: _ => .ok (.append [Event.claim t.id agent (some now), Event.state t.id .doing (some now)], t)
+
+/-- `runPrune` -/
+def secPrune (g : Graph) (apply : Bool) (agent : String) (now : Time) : Write × List Id :=
+  let ids := pruneTargets g
+  (.append (if apply then ids.map fun i => Event.tombstone i agent (some now) else []), ids)
 
 /-- `RunCompact`'s closure -/
 def secCompact (g : Graph) : Write := .replace (compactEvents g)
